@@ -21,10 +21,15 @@ IDS = [0, 1, W.ID_MAX]
 URIS = ["a", "com.myapp.topic1", "wamp.error.not_found", "a.b.c_d-1"]
 STRS = ["x", "üñí", "\U0001F600 non-BMP \U00010000"]
 
+# four hops, every hop different, authid None at the first and at a middle hop
+FF4 = [{"session": 11, "authid": None, "authrole": "r1"}, {"session": 22, "authid": "b", "authrole": "r2"},
+       {"session": 33, "authid": None, "authrole": "r3"}, {"session": 44, "authid": "d", "authrole": "r4"}]
+
 SAMPLES = {
     "id": [0, 1, W.ID_MAX, 77], "str": STRS, "bool": [True, False], "nat": [0, 10], "pos": [1, 5],
-    "dict": [{"a": 1}, {"n": {"m": [None, 1.5]}}], "list_id": [[1, W.ID_MAX], [0]], "list_str": [["a", "é"], ["r"]],
-    "ff": [W.FF1, W.FF3], "uri": ["wamp.x", "com.reason"],
+    "dict": [{"a": 1}, {"n": {"m": [None, 1.5]}}], "list_id": [[1, W.ID_MAX], [0], [5, 4, 3, 2, 1, 5]],
+    "list_str": [["a", "é"], ["r"], ["x", "y", "x", "z"]],
+    "ff": [W.FF1, W.FF3, FF4], "uri": ["wamp.x", "com.reason"],
 }
 FALSY = {"str": "", "bool": False, "dict": {}, "list_id": [], "list_str": [], "ff": []}
 
@@ -59,6 +64,41 @@ def roles_variants(cls):
     return out
 
 
+def role_feature_set(table, role, salt):
+    """a feature assignment for one role that differs from what any other role gets for the shared feature names
+    (values cycle True / False / absent with a per-role phase)"""
+    fs = table[role]
+    ph = (list(table).index(role) + salt) % 3
+    out = {}
+    for j, f in enumerate(fs):
+        v = (True, False, None)[(j + ph) % 3]
+        if v is not None:
+            out[f] = v
+    return out
+
+
+def role_orders(cls, rng, quick):
+    """HELLO / WELCOME role dicts: several roles in every announced order, every pattern of roles with / without
+    features, a different feature set per role.  Repeated sub-structures must be handled entry by entry: nothing of
+    one role may show up in (or vanish from) another."""
+    import itertools
+    table = W.HELLO_ROLES if cls == "Hello" else W.WELCOME_ROLES
+    names = list(table)
+    orders = [list(p) for k in range(2, len(names) + 1) for p in itertools.permutations(names, k)]
+    if quick and len(orders) > 20:
+        pairs = [o for o in orders if len(o) == 2]
+        longer = [o for o in orders if len(o) > 2]
+        orders = pairs + rng.sample(longer, 8)
+    out = []
+    for o in orders:
+        masks = list(itertools.product((False, True), repeat=len(o)))
+        if len(o) > 2 and quick:
+            masks = rng.sample(masks, 3) + [tuple(i == 0 for i in range(len(o))), tuple(i != len(o) - 1 for i in range(len(o)))]
+        for salt, mask in enumerate(masks):
+            out.append({r: (role_feature_set(table, r, salt) if featured else {}) for r, featured in zip(o, mask)})
+    return out
+
+
 def positional(cls, k):
     """k-th choice of the mandatory fields (ids cycle through 0, 1, 2^53)"""
     sp = W.SPEC[cls]
@@ -90,7 +130,7 @@ def option_values(cls, key, attr, kind):
     if kind.startswith("enum:"):
         return kind[5:].split("|")
     if cls == "Hello" and key == "authmethods":
-        return [["anonymous", "ticket"], ["wampcra"]]
+        return [["anonymous", "ticket"], ["wampcra"], ["a", "b", "c", "a", "d"]]
     return SAMPLES[kind]
 
 
@@ -170,6 +210,13 @@ def gen_cases(ck):
                         vs = option_values(cls, key, attr, kind)
                         a[attr] = rng.choice(vs)
                 add(cls, {**a, **pl}, f"opts=random pl={pn}")
+        if cls in ("Hello", "Welcome"):
+            for j, roles in enumerate(role_orders(cls, rng, quick)):
+                a = positional(cls, j)
+                a["roles"] = roles
+                if j % 3 == 0:
+                    a["authid"] = "joe"
+                add(cls, a, "roles=" + ">".join(f"{r}{'+' if fs else '-'}" for r, fs in roles.items()))
         if cls == "Welcome":
             for cu in ({"x_cb_node": "n1"}, {"x_foo": {"a": [1]}, "x_": True}):
                 add(cls, {**positional(cls, 1), "custom": cu, "authid": "joe", "authrole": "user", "authmethod": "ticket"}, "custom")
@@ -188,6 +235,18 @@ def compare_attrs(orig, after):
     for n in a:
         x, y = W.dec(a[n]), W.dec(b.get(n))
         if W.enc(x) == W.enc(y):
+            continue
+        if n == "roles" and type(x) is dict and type(y) is dict:
+            # repeated sub-structure: entry by entry, and the announced order
+            for r in list(x) + [r for r in y if r not in x]:
+                if r not in y:
+                    diffs.append((f"roles.{r}", "lost", x[r], None))
+                elif r not in x:
+                    diffs.append((f"roles.{r}", "changed", None, y[r]))
+                elif x[r] != y[r]:
+                    diffs.append((f"roles.{r}", "changed", x[r], y[r]))
+            if not any(d[0].startswith("roles.") for d in diffs) and list(x) != list(y):
+                diffs.append(("roles", "reordered", list(x), list(y)))
             continue
         if y is None and any(x == t and type(x) is type(t) for t in TOLERATED_FALSY):
             diffs.append((n, "defaulted", x, y))
@@ -264,9 +323,12 @@ def run(ck):
         mandatory = {a for a, _ in sp["pos"]} | {"roles"}
         for _ in range(12):
             cands = [k for k in cur if k not in mandatory]
-            if not cands:
+            if not cands and not (type(cur.get("roles")) is dict and len(cur["roles"]) > 1):
                 break
             trial = [{"cls": c["cls"], "attrs": {k: v for k, v in cur.items() if k != d}} for d in cands]
+            if type(cur.get("roles")) is dict and len(cur["roles"]) > 1:      # drop one role, keep the order
+                trial += [{"cls": c["cls"], "attrs": {**cur, "roles": {r: f for r, f in cur["roles"].items() if r != d}}}
+                          for d in cur["roles"]]
             rr = run_cases(trial)["results"]
             hit = next((t for t, res in zip(trial, rr) if any(s == suffix for s, _ in failure_kinds(t, res))), None)
             if hit is None:
@@ -291,7 +353,8 @@ def run(ck):
             opts = sorted(k for k in small if k not in {a for a, _ in W.SPEC[c["cls"]]["pos"]} and k != "roles")
             key = f"{c['cls']}/{'+'.join(opts) or 'positional'}/{suffix}"
             reported[first] = key
-            ck.violation(key, f"{c['cls']}({', '.join(f'{k}={W.vrepr(small[k])}' for k in opts)}): {desc}",
+            shown = opts + (["roles"] if suffix.startswith("roles") else [])
+            ck.violation(key, f"{c['cls']}({', '.join(f'{k}={small[k]!r}' if k == 'roles' else f'{k}={W.vrepr(small[k])}' for k in shown)}): {desc}",
                          {"cls": c["cls"], "attrs": [[k, W.enc(v)] for k, v in small.items()]}, found_input=True)
         if "build" in res:
             continue
@@ -339,6 +402,16 @@ def run(ck):
     for n in range(1, 6):
         for _ in range(6 if ck.quick() else 60):
             batches.append([rng.choice(good) for _ in range(n)])
+    # state carried from one message to the next one of the SAME class: (all options | featured roles) then (none), and back
+    by_cls = {}
+    for c in good:
+        by_cls.setdefault(c["cls"], []).append(c)
+    for cls, cs in by_cls.items():
+        rich = [c for c in cs if c["tag"].startswith("opts=all") or c["tag"].startswith("roles=")]
+        poor = [c for c in cs if c["tag"].startswith("opts=none")] or cs[:1]
+        for a in rich[:2] + rich[-1:]:
+            for b in poor[:1] + [c for c in cs if c["tag"].startswith("roles=") and c is not a][:2]:
+                batches.append([a, b]); batches.append([b, a]); batches.append([a, b, a])
     rb = ck.run_impl("wamp_messages.py", {"op": "batch", "cases": [
         {"msgs": [[c["cls"], [[k, W.enc(v)] for k, v in c["attrs"].items()]] for c in b], "via": VIA} for b in batches]}, timeout=1500)
     bcases = []
